@@ -171,6 +171,13 @@ def run(scn, H, execu):
         # whichever comes first decides where to look for an explanation
         if seg is not None and (d is None or seg[2] <= d['k']):
             sa, sb, kk = seg
+            # `dt >= T` is itself a comparison with gearpy's absolute band
+            # (1e-12 in the unit of dt: 3.6 ns when dt is given in hours)
+            if any(x['exc'] is not None and 'greater or equal' in x['exc'][1]
+                   for x in (sa, sb)) and \
+                    abs(sa['T'] - sa['dt']) <= 1e-12 * 3600.0 * 1.01:
+                st['threshold_fragile'] += 1
+                return H, out, st
             if c12.fragile([(v, ea), (vb, eb)], max(kk, 0)):
                 st['threshold_fragile'] += 1
                 return H, out, st
